@@ -3,7 +3,7 @@
 
     tzgen.ical.offset <hex>                         Gen.tzical_parseOffset
     tzgen.ical.seq <comps> <us:fold;us:fold;…>      a FRESH zone queried in this order through the translated
-                                                    `_find_comp` (cache threaded): per query `idx?,from,to,isdst,utcoff,dst`
+                                                    `_find_comp` (cache threaded): per query `from/to/isdst,utcoff,dst,tzname` (components named by their offsets)
                                                     (µs), then the final cache `us:fold,…|from/to/isdst,…`
                                                     (datetimes are µs since ordinal 0, as the onsets × 10^6)
     tzgen.str.init <posix> <hex>                    Gen.tzstr_init, printed like tz.zone
@@ -38,8 +38,13 @@ def runSeq (comps : List ICal.ZComp) (qs : List (Int × Bool)) : String :=
     let st := acc.2
     let uo := showTd (Gen.tzicalvtz_utcoffset comps st.1 st.2 d)
     let ds := showTd (Gen.tzicalvtz_dst comps st.1 st.2 d)
+    -- the TZNAME of a component: the validation names every component by its offsets
+    let nm := match Gen.tzicalvtz_tzname comps (fun c => some (showComp (some c)).toList) st.1 st.2 d with
+      | .ok (some n, _, _) => String.ofList n
+      | .ok (none, _, _) => "-"
+      | .error e => "!" ++ e.name
     match Gen.tzicalvtz_findComp comps st.1 st.2 d with
-    | .ok (c, cd, cc) => (acc.1 ++ [s!"{showComp c},{uo},{ds}"], (cd, cc))
+    | .ok (c, cd, cc) => (acc.1 ++ [s!"{showComp c},{uo},{ds},{nm}"], (cd, cc))
     | .error e => (acc.1 ++ ["!" ++ e.name], st)) ([], ([], []))
   "ok " ++ " ".intercalate outs ++ " cache=" ++ ",".intercalate (st.1.map fun k => s!"{k.1.us}:{k.2}") ++ "|" ++
     ",".intercalate (st.2.map showComp)
